@@ -409,6 +409,9 @@ def _close(a, b, tol, rtol=0.0):
     if a is None or b is None:
         return a is None and b is None
     a, b = float(a), float(b)
+    # magnitudes beyond 1e300 are overflow territory: +-inf and +-1e305 are the same answer ("diverged, with this sign")
+    if abs(a) > 1e300 and abs(b) > 1e300 and (a > 0) == (b > 0):
+        return True
     if a == b:
         return True
     if a != a or b != b:
